@@ -507,23 +507,86 @@ fn judge(book: &OrderBook, model: &Model, step: usize, stats: &mut Stats) -> Res
     Ok(())
 }
 
+/// How event `idx` reaches the book (all are legitimate uses of the public API and must be equivalent):
+/// 0 = `OrderBook::update`, 1 = the lower-level `upsert_bids` / `upsert_asks` plus the public metadata
+/// fields (updates only), 2 = `update` on a CLONE that replaces the book, 3 = `update` on the book's own
+/// full-depth `snapshot` that replaces the book.
+fn route_of(idx: usize, ev: &Ev) -> u8 {
+    let h = (idx as u64).wrapping_mul(0x9E37_79B9_7F4A_7C15) ^ ev.sequence.wrapping_mul(0xD6E8_FEB8_6659_FD93);
+    match (h >> 29) % 16 {
+        0 | 1 if !ev.snapshot => 1,
+        2 => 2,
+        3 => 3,
+        _ => 0,
+    }
+}
+
+fn apply_routed(book: &mut OrderBook, event: OrderBookEvent, route: u8, stats: &mut Stats) {
+    match (route, event) {
+        (1, OrderBookEvent::Update(update)) => {
+            stats.cover("route:update_through_upsert_bids_and_asks");
+            book.sequence = update.sequence;
+            book.time_engine = update.time_engine;
+            book.upsert_asks(update.asks().clone());
+            book.upsert_bids(update.bids().clone());
+        }
+        (2, event) => {
+            stats.cover("route:continued_on_a_clone");
+            let mut copy = book.clone();
+            copy.update(event);
+            *book = copy;
+        }
+        (3, event) => {
+            stats.cover("route:continued_on_a_full_depth_snapshot");
+            let mut copy = book.snapshot(usize::MAX);
+            copy.update(event);
+            *book = copy;
+        }
+        (_, event) => book.update(event),
+    }
+}
+
 /// Run one sequential history under the monitor. Err = (failure, index of the failing event).
+///
+/// Every fourth history (by length) is run NEXT TO a second book that receives the same events in reverse
+/// order, one for one: two books share nothing, so each must follow its own map.
 fn run_seq(history: &[Ev], stats: &mut Stats) -> Result<(), (Fail, usize)> {
     let mut book = OrderBook::default();
     let mut model = Model::default();
+    let side_by_side = history.len() >= 2 && history.len() % 4 == 1;
+    let mut other = OrderBook::new(0, None, Vec::<Level>::new(), Vec::<Level>::new());
+    let mut other_model = Model::default();
     judge(&book, &model, 1, stats).map_err(|f| (f, 0))?;
     for (idx, ev) in history.iter().enumerate() {
         let event = build(ev);
         let (cb, ca) = carried(&event);
         model.apply(ev, &cb, &ca, stats);
         stats.events += 1;
-        if let Err(msg) = catch(|| book.update(event)) {
+        let route = route_of(idx, ev);
+        if let Err(msg) = catch(|| apply_routed(&mut book, event, route, stats)) {
             return Err((
                 Fail { sig: "panic_in_order_book_update", detail: format!("OrderBook::update panicked at event {idx}: {msg}") },
                 idx,
             ));
         }
         judge(&book, &model, idx, stats).map_err(|f| (Fail { sig: f.sig, detail: format!("after event {idx}: {}", f.detail) }, idx))?;
+        if side_by_side {
+            let oev = &history[history.len() - 1 - idx];
+            let event = build(oev);
+            let (cb, ca) = carried(&event);
+            other_model.apply(oev, &cb, &ca, stats);
+            if let Err(msg) = catch(|| other.update(event)) {
+                return Err((
+                    Fail { sig: "panic_in_order_book_update", detail: format!("second book: OrderBook::update panicked at event {idx}: {msg}") },
+                    idx,
+                ));
+            }
+            stats.cover("route:two_books_side_by_side");
+            judge(&other, &other_model, idx, stats)
+                .map_err(|f| (Fail { sig: f.sig, detail: format!("second book fed in reverse, after its event {idx}: {}", f.detail) }, idx))?;
+            judge(&book, &model, idx, stats)
+                .map_err(|f| (Fail { sig: f.sig, detail: format!("after event {idx} and an update of ANOTHER book: {}", f.detail) }, idx))?;
+        }
     }
     Ok(())
 }
@@ -1330,6 +1393,10 @@ fn main() {
             "snapshot:depth_lt_size",
             "snapshot:depth_eq_size",
             "snapshot:depth_gt_size",
+            "route:update_through_upsert_bids_and_asks",
+            "route:continued_on_a_clone",
+            "route:continued_on_a_full_depth_snapshot",
+            "route:two_books_side_by_side",
             "driver:sequential:exhaustive",
             "driver:sequential:random",
             "driver:manager",
